@@ -17,7 +17,10 @@ import (
 	"github.com/form3tech-oss/f1/v2/internal/progress"
 	"github.com/form3tech-oss/f1/v2/internal/run"
 	"github.com/form3tech-oss/f1/v2/internal/run/views"
+	f1testing "github.com/form3tech-oss/f1/v2/pkg/f1/testing"
 	"github.com/form3tech-oss/f1/v2/verifharness/core"
+	"github.com/form3tech-oss/f1/v2/verifharness/engine"
+	"sync/atomic"
 )
 
 // C19 — summary and progress output state the same numbers as the result they render.
@@ -84,9 +87,19 @@ func init() {
 				c.Solo = true
 				cs = append(cs, c)
 			}
+			nr := 16
+			if tier == "thorough" {
+				nr = 120
+			}
+			for i := 0; i < nr; i++ {
+				c := core.MkCase("C19", "runsummary", i, seed, c19Params{N: i})
+				c.Race = i%2 == 0
+				c.TimeoutMS = 60000
+				cs = append(cs, c)
+			}
 			return cs
 		},
-		Kinds:  map[string]core.RunFunc{"gen": c19Gen, "real": c19Real},
+		Kinds:  map[string]core.RunFunc{"gen": c19Gen, "real": c19Real, "runsummary": c19RunSummary},
 		Floors: map[string]int64{"renders": 20000, "coloured_renders": 5000, "percentages_checked": 5000},
 	})
 }
@@ -511,4 +524,101 @@ func c19Real(c *core.Case, o *core.Outcome) {
 			o.Sample = map[string]any{"data": desc, "rendered": plain, "progress": pplain}
 		}
 	}
+}
+
+// c19RunSummary: the summary a real run prints or logs at its very end must state the verdict and the
+// counts of the result the run returns - also when the teardown, which runs after the totals are
+// taken, is what fails the run.
+func c19RunSummary(c *core.Case, o *core.Outcome) {
+	var p c19Params
+	c.Params(&p)
+	r := c.Rng("runsummary")
+	teardown := pick(r, engine.BPass, engine.BPass, engine.BFailNow, engine.BFail, engine.BPanicString, engine.BPanicError)
+	setup := engine.BPass
+	if r.IntN(6) == 0 {
+		setup = pick(r, engine.BFailNow, engine.BPanicString)
+	}
+	failEvery := pick(r, 0, 0, 2, 5)
+	interactive := r.IntN(2) == 0
+	var started atomic.Int64
+	scenario := func(t *f1testing.T) f1testing.RunFn {
+		t.Cleanup(func() { engine.Behave(t, teardown) })
+		if setup != engine.BPass {
+			engine.Behave(t, setup)
+		}
+		return func(t *f1testing.T) {
+			n := started.Add(1)
+			if failEvery > 0 && n%int64(failEvery) == 0 {
+				t.Fail()
+			}
+		}
+	}
+	spec := engine.Spec{Mode: pick(r, "users", "constant"), Concurrency: pick(r, 1, 3), MaxDurationMS: 30000, MaxIterations: uint64(5 + r.IntN(30)), IgnoreDropped: true,
+		Interactive: interactive, MaxFailures: uint64(pick(r, 0, 0, 100))}
+	if spec.Mode == "constant" {
+		spec.Rate, spec.Distribution = "5/10ms", "none"
+	}
+	l := engine.NewLog()
+	ctx, cancel := context.WithCancel(context.Background())
+	defer cancel()
+	run := engine.Execute(ctx, spec, l, scenario, nil, nil)
+	if run.NewErr != nil {
+		o.Inconc("harness: %v", run.NewErr)
+		return
+	}
+	desc := fmt.Sprintf("mode=%s interactive=%v setup=%s teardown=%s failEvery=%d", spec.Mode, interactive, engine.BehaviourNames[setup], engine.BehaviourNames[teardown], failEvery)
+	wantFailed := run.Result.Failed()
+	snap := run.Result.Snapshot()
+	su, fa, dr := snap.SuccessfulIterationDurations.Count, snap.FailedIterationDurations.Count, snap.DroppedIterationCount
+	found := false
+	for _, ev := range l.Events() {
+		switch {
+		case ev.Kind == "out.log" && (strings.Contains(ev.S, "|Load Test Passed") || strings.Contains(ev.S, "|Load Test Failed")):
+			found = true
+			saysFailed := strings.Contains(ev.S, "|Load Test Failed")
+			if saysFailed != wantFailed || strings.HasPrefix(ev.S, "ERROR") != wantFailed {
+				o.Violate("runsummary-banner:"+desc, "the run's final structured summary says %q, the result it returns has Failed()=%v (error %v) (%s)", firstN(ev.S, 80), wantFailed, run.Result.Error(), desc)
+				return
+			}
+			if attrUint(ev.S, "iteration_stats.successful") != su || attrUint(ev.S, "iteration_stats.failed") != fa || attrUint(ev.S, "iteration_stats.dropped") != dr {
+				o.Violate("runsummary-counts:"+desc, "the final structured summary states %q, the result has %d/%d/%d (%s)", firstN(ev.S, 200), su, fa, dr, desc)
+				return
+			}
+		case ev.Kind == "out.print" && (strings.Contains(ev.S, "Load Test Passed") || strings.Contains(ev.S, "Load Test Failed")):
+			found = true
+			text := ansiRe.ReplaceAllString(ev.S, "")
+			if strings.Contains(text, "Load Test Failed") != wantFailed {
+				o.Violate("runsummary-banner:"+desc, "the run's final summary says %q, the result it returns has Failed()=%v (error %v) (%s)", firstN(strings.TrimSpace(text), 40), wantFailed, run.Result.Error(), desc)
+				return
+			}
+			if e := run.Result.Error(); e != nil && !strings.Contains(text, "Error: "+e.Error()) {
+				o.Violate("runsummary-error:"+desc, "the final summary does not state the result's error %q: %q (%s)", e.Error(), firstN(text, 200), desc)
+				return
+			}
+			for _, ln := range strings.Split(text, "\n") {
+				if m := iterLineRe.FindStringSubmatch(ln); m != nil {
+					want := map[string]uint64{"Successful": su, "Failed": fa, "Dropped": dr}[m[1]]
+					if m[2] != strconv.FormatUint(want, 10) {
+						o.Violate("runsummary-counts:"+desc, "the final summary line %q, the result has %d (%s)", ln, want, desc)
+						return
+					}
+				}
+			}
+		}
+	}
+	if !found {
+		o.Violate("runsummary-missing:"+desc, "the run produced no final summary (%s)", desc)
+		return
+	}
+	o.Events += int64(l.Len())
+	o.AddObs("renders", 1)
+	o.Sig("runsummary:interactive=%v:setup=%v:teardown=%s:failed=%v", interactive, setup != engine.BPass, engine.BehaviourNames[teardown], wantFailed)
+	o.Sample = map[string]any{"case": desc, "failed": wantFailed, "counts": []uint64{su, fa, dr}}
+}
+
+func firstN(s string, n int) string {
+	if len(s) > n {
+		return s[:n]
+	}
+	return s
 }
